@@ -237,6 +237,7 @@ class CFG:
             return []
         if isinstance(s, ast.Break):
             n = self._new("break", s)
+            self.stmt_node[id(s)] = n
             self._connect(preds, n)
             if not ctx.loops:
                 raise AnalysisError("break outside loop")
@@ -244,6 +245,7 @@ class CFG:
             return []
         if isinstance(s, ast.Continue):
             n = self._new("continue", s)
+            self.stmt_node[id(s)] = n
             self._connect(preds, n)
             self._edge(n, ctx.loops[-1]["head"], "back")
             return []
@@ -319,7 +321,8 @@ class CFG:
         return seen
 
     def some_path(self, start, goal_ids, avoid=(), follow=lambda a, b, lab: True):
-        """a path (list of Nodes) from start to any goal avoiding `avoid`, or None."""
+        """a shortest path [(Node, label-of-edge-leaving-it)...] from start to any goal, never
+        entering a node in `avoid`; None if there is none."""
         avoid = set(avoid)
         goal_ids = set(goal_ids)
         prev = {start.id: None}
@@ -328,10 +331,7 @@ class CFG:
             n = todo.pop(0)
             for m, lab in self.succ[n.id]:
                 if m.id in prev or m.id in avoid or not follow(n, m, lab):
-                    if m.id in goal_ids and m.id not in prev and m.id not in avoid and follow(n, m, lab):
-                        pass
-                    else:
-                        continue
+                    continue
                 prev[m.id] = (n.id, lab)
                 if m.id in goal_ids:
                     path = [(m.id, None)]
